@@ -33,7 +33,7 @@ pub broadcast group group_asref_std {
     ax_asref_vec_slice, ax_asref_vec_vec, ax_asref_slice_slice, ax_asref_array_slice, ax_asref_str_bytes, ax_asref_str_str,
     ax_asref_string_str, ax_asref_string_bytes, ax_asref_ref
 }
-pub broadcast group group_glue { group_asref_std, ax_into_identity, ax_into_some, ax_string_view_inj, ax_elem_eq_str, ax_into_map_hashmap, ax_string_key_model, vstd::std_specs::hash::group_hash_axioms, crate::p384::ax_asref_encoded_point, crate::generic_array::ax_asref_ga, ax_str_bytes_inj, ax_iter_items_vec, ax_iter_items_copied_slice }
+pub broadcast group group_glue { group_asref_std, lemma_utf8_valid, lemma_utf8_inj, ax_into_identity_obeys, ax_into_some_obeys, ax_asref_box, ax_into_identity, ax_into_some, ax_string_view_inj, ax_elem_eq_str, ax_into_map_hashmap, ax_string_key_model, vstd::std_specs::hash::group_hash_axioms, crate::p384::ax_asref_encoded_point, crate::generic_array::ax_asref_ga, ax_str_bytes_inj, ax_iter_items_vec, ax_iter_items_copied_slice }
 
 // ---- external std types ---------------------------------------------------------------------
 #[verifier::external_type_specification]
@@ -55,8 +55,14 @@ pub assume_specification [std::string::String::from_utf8] (b: Vec<u8>) -> (r: Re
             r is Ok ==> vstd::utf8::encode_utf8(r->Ok_0@) == b@;
 pub assume_specification<T: Clone> [<[T]>::to_vec] (s: &[T]) -> (r: Vec<T>)
     ensures r@ == s@;
-pub broadcast axiom fn ax_str_bytes_inj(a: &str, b: &str)
-    ensures (#[trigger] a.spec_bytes() == #[trigger] b.spec_bytes()) ==> a@ == b@;
+pub broadcast proof fn ax_str_bytes_inj(a: &str, b: &str)
+    ensures (#[trigger] a.spec_bytes() == #[trigger] b.spec_bytes()) ==> a@ == b@
+{ vstd::utf8::encode_utf8_decode_utf8(a@); vstd::utf8::encode_utf8_decode_utf8(b@); }
+// proved from vstd's UTF-8 library (not assumptions)
+pub broadcast proof fn lemma_utf8_valid(s: Seq<char>) ensures vstd::utf8::valid_utf8(#[trigger] vstd::utf8::encode_utf8(s)) { vstd::utf8::encode_utf8_valid_utf8(s); }
+pub broadcast proof fn lemma_utf8_inj(a: Seq<char>, b: Seq<char>)
+    ensures (#[trigger] vstd::utf8::encode_utf8(a) == #[trigger] vstd::utf8::encode_utf8(b)) ==> a == b
+{ vstd::utf8::encode_utf8_decode_utf8(a); vstd::utf8::encode_utf8_decode_utf8(b); }
 
 pub fn runtime_assert(b: bool) requires b {}
 // ---- more std functions the repo calls (assumed: what std does) -------------------------------
@@ -78,6 +84,9 @@ pub broadcast axiom fn ax_into_identity<T>(t: T)
     ensures #[trigger] <T as vstd::std_specs::convert::IntoSpec<T>>::into_spec(t) == t, <T as vstd::std_specs::convert::IntoSpec<T>>::obeys_into_spec();
 pub broadcast axiom fn ax_into_some<T>(t: T)
     ensures #[trigger] <T as vstd::std_specs::convert::IntoSpec<Option<T>>>::into_spec(t) == Some(t), <T as vstd::std_specs::convert::IntoSpec<Option<T>>>::obeys_into_spec();
+pub broadcast axiom fn ax_into_identity_obeys<T>() ensures #[trigger] <T as vstd::std_specs::convert::IntoSpec<T>>::obeys_into_spec();
+pub broadcast axiom fn ax_into_some_obeys<T>() ensures #[trigger] <T as vstd::std_specs::convert::IntoSpec<Option<T>>>::obeys_into_spec();
+pub broadcast axiom fn ax_asref_box<T: ?Sized>(b: &Box<T>) ensures #[trigger] as_ref_spec::<Box<T>, T>(b) == &**b;
 // two Strings with the same contents are the same value
 pub broadcast axiom fn ax_string_view_inj(a: String, b: String)
     ensures (#[trigger] a@ == #[trigger] b@) ==> a == b;
